@@ -113,6 +113,10 @@ func runC13(c *fw.Ctx) {
 		}
 		r := c.Rand(idx)
 		n := r.Intn(13)
+		if r.Chance(1, 8) {
+			// long lists with many ties (library sorts switch algorithm with the length)
+			n = r.Range(13, 60)
+		}
 		var docs []bson.D
 		for i := 0; i < n; i++ {
 			docs = append(docs, append(bson.D{{Key: "_id", Value: int32(i)}}, c13Doc(r)...))
